@@ -445,7 +445,9 @@ def _validate_policy(namespace):
         # If a rule has invalid syntax it will be forced to '!'. If the literal
         # rule from the policy file isn't '!' then this means there was an
         # error parsing it.
-        if str(enforcer.rules[name]) == '!' and unparsed_policies[name] != '!':
+        # NOTE: YAML reads an unquoted '!' as null, which also denies.
+        if (str(enforcer.rules[name]) == '!' and
+                unparsed_policies[name] not in ('!', None)):
             print('Failed to parse rule:', unparsed_policies[name])
             return_code = 1
     return return_code
